@@ -239,6 +239,41 @@ pub open spec fn spec_add(gs: Seq<AGroup>, tag: crate::model::DelimiterTag, name
     }
 }
 
+// ------------------------------------------------------------------ C19: histories of additions
+
+/// one addition: group kind, attribute name, value
+pub type AOp = (crate::model::DelimiterTag, Seq<char>, AVal);
+
+/// the container after a sequence of additions to `start` (each one by the contract of `IppAttributes::add`)
+pub open spec fn add_all(start: Seq<AGroup>, ops: Seq<AOp>) -> Seq<AGroup>
+    decreases ops.len()
+{
+    if ops.len() == 0 { start } else { let o = ops.last(); spec_add(add_all(start, ops.drop_last()), o.0, o.1, o.2) }
+}
+
+/// the group kinds in order of first use
+pub open spec fn first_use(ops: Seq<AOp>) -> Seq<crate::model::DelimiterTag>
+    decreases ops.len()
+{
+    if ops.len() == 0 { Seq::empty() } else {
+        let p = first_use(ops.drop_last());
+        if p.contains(ops.last().0) { p } else { p.push(ops.last().0) }
+    }
+}
+
+/// the most recent value added under (kind, name)
+pub open spec fn latest(ops: Seq<AOp>, tag: crate::model::DelimiterTag, name: Seq<char>) -> Option<AVal>
+    decreases ops.len()
+{
+    if ops.len() == 0 { None }
+    else if ops.last().0 == tag && ops.last().1 == name { Some(ops.last().2) }
+    else { latest(ops.drop_last(), tag, name) }
+}
+
+pub open spec fn kinds(gs: Seq<AGroup>) -> Seq<crate::model::DelimiterTag> {
+    gs.map_values(|g: AGroup| g.0)
+}
+
 // ------------------------------------------------------------------ request model (RFC 8011 §4.1.4, §4.1.5)
 
 pub open spec fn name_val(s: Seq<char>) -> AVal { AVal::Text { tag: T_NAME, s } }
